@@ -97,7 +97,7 @@ func RegisterLevel(levelValue Level, title string, opts ...RegOpt) error {
 			mLevelColors[levelValue] = []color.Color{pack.clr}
 		}
 	}
-	if pack.treatAs < MaxLevel {
+	if pack.treatAsGiven {
 		mLevelIsEnabledAs[levelValue] = pack.treatAs
 	}
 	if pack.printOutToErrorDevice {
@@ -111,6 +111,7 @@ type regPack struct {
 	shortTags             [MaxLengthShortTag]string
 	clr, bg               color.Color
 	treatAs               Level
+	treatAsGiven          bool // a level registered earlier (>= MaxLevel) is a legal target too
 	printOutToErrorDevice bool
 }
 
@@ -145,7 +146,7 @@ func RegWithColor(clr color.Color, bgColor ...color.Color) RegOpt {
 // will redirect the logging line to stderr device just like ErrorLevel.
 func RegWithTreatedAsLevel(treatAs Level) RegOpt {
 	return func(pack *regPack) {
-		pack.treatAs = treatAs
+		pack.treatAs, pack.treatAsGiven = treatAs, true
 	}
 }
 
@@ -191,6 +192,16 @@ func RegWithPrintToErrorDevice(b ...bool) RegOpt {
 // Note that the levels are ordinal: PanicLevel (0) .. DebugLevel (5)
 // .. OffLevel (7), AlwaysLevel (8), OKLevel (9) .. MaxLevel (dyn).
 func (level Level) Enabled(ctx context.Context, testingLevel Level) bool {
+	// a registered level counts as the level it is treated as, in
+	// every test below; that one may be treated as a further one
+	// (the bound keeps a cyclic table from spinning).
+	for i := len(mLevelIsEnabledAs); i >= 0; i-- {
+		l, ok := mLevelIsEnabledAs[testingLevel]
+		if !ok || l == testingLevel {
+			break
+		}
+		testingLevel = l
+	}
 	if level == OffLevel || testingLevel == OffLevel {
 		return false
 	}
@@ -199,9 +210,6 @@ func (level Level) Enabled(ctx context.Context, testingLevel Level) bool {
 	}
 	if states.Env().GetDebugMode() && testingLevel == DebugLevel {
 		return true
-	}
-	if l, ok := mLevelIsEnabledAs[testingLevel]; ok {
-		testingLevel = l
 	}
 	return level >= testingLevel
 }
